@@ -169,18 +169,19 @@ func ruleUnescapeWhenever(c *Ctx, rule string) {
 			n++
 			arith := ""
 			for _, g := range guardsLocal(call) {
-				for _, v := range append(backSlice(g.Cond, 10), g.Cond) {
-					bo, ok := v.(*ssa.BinOp)
-					if !ok || (bo.Op.String() != "+" && bo.Op.String() != "-") {
-						continue
+				hasIndex, hasArith := false, false
+				for _, v := range append(backSlice(g.Cond, 12), g.Cond) {
+					if bo, ok := v.(*ssa.BinOp); ok && (bo.Op.String() == "+" || bo.Op.String() == "-") {
+						hasArith = true
 					}
-					for _, w := range append(backSlice(bo, 6), bo) {
-						if ic, ok := w.(*ssa.Call); ok {
-							if k := core.CalleeKey(&ic.Call); len(k) > 13 && k[:13] == "strings.Index" || k == "strings.LastIndex" || k == "strings.LastIndexByte" {
-								arith = c.pos(g.At)
-							}
+					if ic, ok := v.(*ssa.Call); ok {
+						if k := core.CalleeKey(&ic.Call); len(k) > 13 && k[:13] == "strings.Index" || k == "strings.LastIndex" || k == "strings.LastIndexByte" {
+							hasIndex = true
 						}
 					}
+				}
+				if hasIndex && hasArith {
+					arith = c.pos(g.At)
 				}
 			}
 			c.R.Check(arith == "", rule, fmt.Sprintf("%s:unescape#%d", core.FuncName(fn), n), c.pos(call), "the tokens are unescaped whenever the pointer contains the escape character", "whether the tokens of a pointer are unescaped depends on where the first escape character stands (arithmetic on its position, test at "+arith+"): an escape at the very end of the pointer is left as it is, so \"#/$defs/~1\" (the key \"/\") fails, or selects a schema stored under the raw text \"~1\"")
@@ -230,4 +231,126 @@ func ruleContainsFromFirst(c *Ctx, rule string) {
 		}
 	}
 	c.R.Floor(rule, "item loops of `contains`", n, 1)
+}
+
+func init() {
+	for _, pid := range []string{"C01", "C08"} {
+		pid := pid
+		Properties[pid].Rules = append(Properties[pid].Rules, Rule{pid + "/classifier-ignores-nilness", func(c *Ctx) { ruleClassifierIgnoresNilness(c, pid+"/classifier-ignores-nilness") }})
+	}
+	for _, pid := range []string{"C17", "C03", "C02"} {
+		pid := pid
+		Properties[pid].Rules = append(Properties[pid].Rules, Rule{pid + "/digit-range-constants", func(c *Ctx) { ruleDigitRangeConstants(c, pid+"/digit-range-constants") }})
+	}
+	for _, pid := range []string{"C01", "C02", "C18"} {
+		pid := pid
+		Properties[pid].Rules = append(Properties[pid].Rules, Rule{pid + "/keyword-preparations-independent", func(c *Ctx) { ruleKeywordPreparationsIndependent(c, pid+"/keyword-preparations-independent") }})
+	}
+}
+
+// The JSON type of a Go value is read off its kind: a nil slice is an array and a nil map an object for every other
+// keyword (maxItems, properties ...), so the classifier must not call them null. It never asks IsNil.
+func ruleClassifierIgnoresNilness(c *Ctx, rule string) {
+	cls := c.TypeClassifier(rule)
+	if cls == nil {
+		return
+	}
+	n := 0
+	for _, fi := range c.familyInstrs(cls) {
+		n++
+		if call, ok := fi.I.(*ssa.Call); ok && core.CalleeKey(&call.Call) == "reflect.Value.IsNil" {
+			c.R.Bad(rule, core.FuncName(cls)+":IsNil", c.pos(call), "the type classifier asks whether the value is nil: a nil slice or map is then \"null\" for `type` while every other keyword still treats it as the empty array or object, so {\"type\":\"array\",\"maxItems\":0} rejects a nil []any and {\"type\":\"null\"} accepts it")
+		}
+	}
+	c.R.OK(rule, "classifier-examined", "", fmt.Sprintf("%d instructions of the type classifier examined: no IsNil", n))
+}
+
+// Where a byte of a pointer token is compared by order with a character constant, the constant is an end of the
+// digit range ('0' as lower end, '9' as upper end). (`seg[0] <= '1'` for "has a leading zero" refuses 10..19.)
+func ruleDigitRangeConstants(c *Ctx, rule string) {
+	w := c.pointerWalker(rule)
+	if w == nil {
+		return
+	}
+	n := 0
+	for _, fi := range c.familyInstrs(w) {
+		bo, ok := fi.I.(*ssa.BinOp)
+		if !ok {
+			continue
+		}
+		switch bo.Op.String() {
+		case "<", "<=", ">", ">=":
+		default:
+			continue
+		}
+		k, isK := bo.Y.(*ssa.Const)
+		if !isK {
+			continue
+		}
+		// the other side is a byte of a string
+		isByte := false
+		for _, v := range append(backSlice(bo.X, 4), bo.X) {
+			switch x := v.(type) {
+			case *ssa.Index:
+				isByte = tString(x.X.Type())
+			case *ssa.Lookup:
+				isByte = isByte || tString(x.X.Type())
+			}
+		}
+		kv, okv := constInt(k)
+		if !isByte || !okv {
+			continue
+		}
+		n++
+		okEnd := (bo.Op.String() == "<" && kv == '0') || (bo.Op.String() == ">=" && kv == '0') || (bo.Op.String() == ">" && kv == '9') || (bo.Op.String() == "<=" && kv == '9')
+		c.R.Check(okEnd, rule, fmt.Sprintf("%s:byte-compared#%d", core.FuncName(bo.Parent()), n), c.pos(bo), "the constant is an end of the digit range", fmt.Sprintf("a byte of a pointer token is compared by order with %q, which is not an end of the digit range: array indexes beginning with some digits (10..19 for `<= '1'`) are refused as having leading zeroes, so a $ref into a long tuple fails", rune(kv)))
+	}
+	c.R.OK(rule, "byte-comparisons-examined", "", fmt.Sprintf("%d ordered comparisons of a token byte with a constant", n))
+}
+
+// What Resolve prepares for one keyword (the compiled pattern, the compiled patternProperties, the set of required
+// names) depends on that keyword alone: in the function that stores the compiled pattern, no store into the side
+// record is guarded by tests of two different Schema fields. (`else if` between independent keywords leaves the
+// second unprepared when both are present, and the evaluator then skips it.)
+func ruleKeywordPreparationsIndependent(c *Ctx, rule string) {
+	n := 0
+	for _, fn := range c.Closure(rule, "RES").Minus(c.Closure(rule, "EV")).Sorted() {
+		if !c.P.InPkg(fn) {
+			continue
+		}
+		has := false
+		core.EachInstr(fn, func(i ssa.Instruction) {
+			if st, ok := i.(*ssa.Store); ok {
+				if fa, ok := st.Addr.(*ssa.FieldAddr); ok && c.fieldName(fa.X.Type(), fa.Field) == "resolvedInfo.pattern" {
+					has = true
+				}
+			}
+		})
+		if !has {
+			continue
+		}
+		core.EachInstr(fn, func(i ssa.Instruction) {
+			st, ok := i.(*ssa.Store)
+			if !ok {
+				return
+			}
+			fa, ok := st.Addr.(*ssa.FieldAddr)
+			if !ok {
+				return
+			}
+			name := c.fieldName(fa.X.Type(), fa.Field)
+			if len(name) < 13 || name[:13] != "resolvedInfo." {
+				return
+			}
+			n++
+			fields := map[string]bool{}
+			for _, g := range guardsLocal(st) {
+				for f := range c.schemaFieldsIn(g.Cond) {
+					fields[f] = true
+				}
+			}
+			c.R.Check(len(fields) <= 1, rule, core.FuncName(fn)+":"+name, c.pos(st), "prepared under tests of one keyword only", fmt.Sprintf("whether %s is prepared depends on tests of several keywords %v: where both are present the later one of an else-if chain is left unprepared, and the evaluator silently skips it (patternProperties beside pattern)", name, sortedKeys(fields)))
+		})
+	}
+	c.R.Floor(rule, "stores into the side record in the local-checks function", n, 2)
 }
